@@ -691,10 +691,14 @@ func c02R3(c *Ctx) {
 			seen[n]++
 			key := fmt.Sprintf("%s|%s#%d", FnName(f), n, seen[n])
 			if n == "(~/registry.Mounter).Mount" {
-				// the local sentinel is the errors.New in the same function
-				tol = nil
-				for _, e := range CallsTo(f, "errors.New") {
-					tol = append(tol, "local:"+localName(e.Value()))
+				// tolerated: the sentinel(s) that the getContent callback handed to
+				// Mount returns to say "skip this source" (a local errors.New or a
+				// package-level variable); failing that, the errors.New of the function
+				tol = c02CallbackSentinels(call)
+				if len(tol) == 0 {
+					for _, e := range CallsTo(f, "errors.New") {
+						tol = append(tol, "local:"+localName(e.Value()))
+					}
 				}
 			}
 			// a callback keeps its tolerated sentinels wherever it is finally
@@ -817,18 +821,11 @@ func c02Go(c *Ctx) {
 			c.Check("C02.R4.permit-typestate", gn+"|body-releases-permit", body.Pos(), okEnd,
 				ifelse(okEnd, "lr.End() runs (deferred or explicit, possibly in a helper receiving the region) on every exit of the goroutine body", "a path leaves the goroutine body without releasing its permit (later copies starve)"))
 		}
-		// region.Start() precedes eg.Go and its failure cancels
-		starts := CallsTo(G, nStart)
-		egGo := CallsTo(G, "(*golang.org/x/sync/errgroup.Group).Go")
-		okStart := len(starts) > 0 && len(egGo) > 0
-		for _, g := range egGo {
-			var okEdges []Edge
-			for _, s := range starts {
-				if e := ErrOf(s); e != nil {
-					ne, _, _ := NilTests(G, Aliases(e))
-					okEdges = append(okEdges, ne...)
-				}
-			}
+		// a successful region.Start() (direct, or inside a helper that returns nil
+		// only after it) precedes eg.Go
+		okEdges := c02AcquireEdges(G)
+		okStart := len(okEdges) > 0 && len(egGoCalls) > 0
+		for _, g := range egGoCalls {
 			if !MustPass(g.(ssa.Instruction), newCut().Edges(okEdges...)) {
 				okStart = false
 			}
